@@ -15,7 +15,6 @@ func init() { register("C09", "other", c09) }
 
 const pkgSPEnum = "0chain.net/smartcontract/stakepool/spenum"
 
-
 // ledgerTypes: objects of these types live in the state trie and carry token amounts.
 var ledgerTypes = map[string]bool{
 	pkgStorage + ".challengePool":     true,
